@@ -27,7 +27,8 @@ MULTI = drv.MULTI_KINDS
 # ---------------------------------------------------------------- judging one behaviour record
 
 def _pass_key(a):
-    return json.dumps([a["mech"], a["K"], a["I"], a["ht"], a["scr"], a["reg"], a["sec"], a["fresh"], a["ic"]])
+    return json.dumps([a["mech"], a["K"], a["I"], a["ht"], a["scr"], a["reg"], a["sec"], a["fresh"], a["ic"],
+                       a.get("field"), a.get("pos")])
 
 
 def _case_key(rec):
@@ -85,7 +86,14 @@ def _judge_step(rec, j, prev, node, base):
 
     ctxs = "mech=%s" % a["mech"]
     if node.exc:
-        F("C05|sign|exception=%s|%s" % (node.exc.split(":")[0], ctxs), "signing raised %s" % node.exc)
+        stale = [i for i in range(len(shape)) if (i + 1) in a["touch"] and prev is not None and prev.proj[i]["junk"] > 0
+                 and shape[i]["kind"] not in MULTI]
+        if stale and any(x["mech"] == "edit" for x in rec["acts"][:j]):
+            # the input carries a signature that no longer verifies (the caller edited a committed field)
+            F("C05|sign|exception=%s|over-stale-signature|kindclass=single" % node.exc.split(":")[0],
+              "signing again over the stale signature of input %d (%s) raised %s" % (stale[0], shape[stale[0]]["kind"], node.exc))
+        else:
+            F("C05|sign|exception=%s|%s" % (node.exc.split(":")[0], ctxs), "signing raised %s" % node.exc)
         return "bad", fails
     if a["mech"] == "keychain" and not node.ses.same_as_fresh:
         F("C05|keychain-history|long-lived-differs-from-fresh|%s" % ("after-kc_add" if any(x["mech"] == "kc_add" for x in rec["acts"][:j]) else "passes-only"),
@@ -110,7 +118,12 @@ def _judge_step(rec, j, prev, node, base):
     before_frame = prev.frame if prev is not None else base[0]
     before_unl = prev.unl if prev is not None else base[1]
     fd = drv.frame_diff(before_frame, node.frame)
-    if fd:
+    if a["mech"] == "edit":
+        want_fd = {"ver": "version", "lock": "lock_time", "oph": "outpoints", "opi": "outpoints", "seq": "sequences",
+                   "out_amt": "outputs", "out_spk": "outputs", "spent_amt": "unspents"}[a["field"]]
+        if fd != [want_fd]:
+            raise MachineryError("the harness's edit %s/%s changed %s" % (a["field"], a["pos"], fd))
+    elif fd:
         F("C05|frame|changed=%s" % ",".join(fd), "signing changed %s" % fd)
     for i in range(len(shape)):
         if (i + 1) not in a["touch"] and node.unl[i] != before_unl[i]:
@@ -161,6 +174,10 @@ def _judge_step(rec, j, prev, node, base):
                 break
         if p["enc"]:
             F("C05|sig-encoding|%s" % p["enc"][0], "input %d: a signature present is not canonical: %s" % (i, p["enc"]))
+        if p.get("nsig", 0) > rec.get("cap", [d["m"] for d in shape])[i]:
+            F("C05|accumulated-signatures|kindclass=%s" % _kindclass(shape[i]),
+              "input %d (%s %d-of-%d) carries %d signature items: stale signatures were kept next to new ones" % (
+                  i, shape[i]["kind"], shape[i]["m"], len(shape[i]["keys"]), p["nsig"]))
     if fails:
         return "bad", fails
     return ("same" if got == rec["outs"][j]["signed"] else "other"), fails
@@ -270,8 +287,8 @@ def run(ctx):
 
     # 2. spec -> code
     if want("replay") or any(o.startswith("replay_") for o in (only or ())):
-        plans = ([("MC_SignerReplay_ord_q", {}), ("MC_SignerReplay_prod", {}), ("MC_SignerReplay_front", {}), ("MC_SignerReplay_kc_q", {}), ("MC_SignerReplay_lim_q", {})] if q else
-                 [("MC_SignerReplay_ord_t", {}), ("MC_SignerReplay_prod", {}), ("MC_SignerReplay_front", {}), ("MC_SignerReplay_kc_t", {}), ("MC_SignerReplay_lim_t", {})])
+        plans = ([("MC_SignerReplay_ord_q", {}), ("MC_SignerReplay_prod", {}), ("MC_SignerReplay_front", {}), ("MC_SignerReplay_edit_q", {}), ("MC_SignerReplay_kc_q", {}), ("MC_SignerReplay_lim_q", {})] if q else
+                 [("MC_SignerReplay_ord_t", {}), ("MC_SignerReplay_prod", {}), ("MC_SignerReplay_front", {}), ("MC_SignerReplay_edit_t", {}), ("MC_SignerReplay_edit_long", {}), ("MC_SignerReplay_kc_t", {}), ("MC_SignerReplay_lim_t", {})])
         for cfg, kw in plans:
             if only is not None and "replay" not in only and not any(o.startswith("replay_") and o[7:] in cfg for o in only):
                 continue
@@ -281,8 +298,11 @@ def run(ctx):
             fails, tot = replay_records(ctx, recs)
             ctx.log("replayed %d behaviours of %s: %d signing passes executed, %d steps judged, %d behaviours applied, %d disagreements" % (
                 len(recs), cfg, tot["passes"], tot["judged"], tot["applied"], len(fails)))
-            if tot["applied"] < len(recs) // 3:
-                raise MachineryError("vacuity: only %d of %d behaviours of %s applied to the real execution" % (tot["applied"], len(recs), cfg))
+            # (records that differ only in the specification's free choice of signers share one real execution,
+            # and a known failure ends the behaviours that run into it: compare with the executions made)
+            if tot["applied"] < min(len(recs), tot["passes"]) // 3:
+                raise MachineryError("vacuity: only %d of %d behaviours of %s (%d real executions) applied" % (
+                    tot["applied"], len(recs), cfg, tot["passes"]))
             ctx.replayed += len(recs)
             ctx.case(None, tot["passes"])
             ctx.action("replay." + cfg, len(recs))
@@ -405,7 +425,7 @@ def _record_random(args):
                            "fresh": False, "ic": "set"}
                     ses.sign(add)
                     e = dict(add)
-                    e.update({"bad": ses.tx.bad_solution_count(), "raised": False,
+                    e.update({"bad": ses.tx.bad_solution_count(), "raised": False, "nsig": [x["nsig"] for x in last_pr],
                               "signed": [x["signed"] for x in last_pr], "valid": [x["valid"] for x in last_pr],
                               "reported": [x["ok_api"] for x in last_pr], "canonical": True, "same_as_fresh": True,
                               "changed": [i + 1 for i in range(n) if drv.unlocking_of(ses.tx, i) != last_unl[i]],
@@ -420,6 +440,8 @@ def _record_random(args):
                      "scr": p["scr"], "reg": [], "sec": [], "fresh": True, "ic": "none"}
                 mech = "create_signed"
             before = [drv.unlocking_of(ses.tx, i) for i in range(n)]
+            stale_single = any((i + 1) in p["I"] and not last_pr[i]["valid"] and last_pr[i]["nsig"] > 0 and shape[i]["kind"] not in MULTI
+                               for i in range(n))
             exc = None
             try:
                 ses.sign(p)
@@ -430,6 +452,7 @@ def _record_random(args):
             e["signed"] = [x["signed"] for x in pr]
             e["valid"] = [x["valid"] for x in pr]
             e["reported"] = [x["ok_api"] for x in pr]
+            e["nsig"] = [x["nsig"] for x in pr]
             e["raised"] = bool(ses.raised) if mech == "create_signed" else False
             if mech == "create_signed":
                 frame0 = hashlib.sha256(repr(sorted(drv.frame_of(ses.tx).items())).encode()).hexdigest()[:16]
@@ -443,12 +466,29 @@ def _record_random(args):
             last_pr, last_unl = pr, [drv.unlocking_of(ses.tx, i) for i in range(n)]
             e["changed"] = [i + 1 for i in range(n) if drv.unlocking_of(ses.tx, i) != before[i]]
             e["frame"] = hashlib.sha256(repr(sorted(drv.frame_of(ses.tx).items())).encode()).hexdigest()[:16]
-            e["note"] = {"exc": exc, "err": [x.get("err") for x in pr], "enc": [x["enc"] for x in pr],
+            e["note"] = {"exc": exc, "stale_single": stale_single, "err": [x.get("err") for x in pr], "enc": [x["enc"] for x in pr],
                          "items": [sum(drv.n_unlocking_items(ses.net, ses.tx, i)) for i in range(n)]}
             ev.append(e)
-            if e["raised"]:
+            if e["raised"] or exc is not None:
                 break
-        out.append({"coin": coin, "shape": shape, "pre": [[] for _ in shape], "frame": frame0, "ev": ev})
+            if rnd.random() < 0.3:
+                # the caller edits a field of the transaction before the next pass
+                nout_now = len(ses.tx.txs_out)
+                field = rnd.choice(["ver", "lock", "oph", "opi", "seq", "seq", "out_amt", "out_amt", "out_spk", "spent_amt"])
+                if field in ("out_amt", "out_spk") and nout_now == 0:
+                    field = "lock"
+                pos = 0 if field in ("ver", "lock") else rnd.randint(1, nout_now if field.startswith("out_") else n)
+                ed = {"mech": "edit", "field": field, "pos": pos, "K": [], "I": [], "ht": 1, "scr": False, "reg": [], "sec": [],
+                      "fresh": False, "ic": "set"}
+                ses.sign(ed)
+                pr = [drv.project_input(coin, ses.tx, i, pz, bits) for i, pz in enumerate(ses.puzzles)]
+                ed.update({"signed": [x["signed"] for x in pr], "valid": [x["valid"] for x in pr], "reported": [x["ok_api"] for x in pr],
+                           "nsig": [x["nsig"] for x in pr], "bad": ses.tx.bad_solution_count(), "raised": False, "canonical": True,
+                           "same_as_fresh": True, "changed": [i + 1 for i in range(n) if drv.unlocking_of(ses.tx, i) != last_unl[i]],
+                           "frame": hashlib.sha256(repr(sorted(drv.frame_of(ses.tx).items())).encode()).hexdigest()[:16]})
+                ev.append(ed)
+                last_pr = pr
+        out.append({"coin": coin, "shape": shape, "pre": [[] for _ in shape], "frame": frame0, "nout": len(ses.tx.txs_out), "ev": ev})
     return out
 
 
@@ -505,7 +545,13 @@ def _trace_key(t, j, exp):
     note = e.get("note") or {}
     ctxs = "mech=%s" % e["mech"]
     if note.get("exc"):
+        if note.get("stale_single") and any(x["mech"] == "edit" for x in t["ev"][:j]):
+            return "C05|sign|exception=%s|over-stale-signature|kindclass=single" % note["exc"].split(":")[0]
         return "C05|sign|exception=%s|%s" % (note["exc"].split(":")[0], ctxs)
+    if e["mech"] == "edit":
+        return "C05|edit|signatures-after-edit-differ-from-commitment-table|field=%s" % e["field"]
+    if any(k > d["m"] for k, d in zip(e.get("nsig", []), t["shape"])):
+        return "C05|accumulated-signatures|kindclass=%s" % ("multi" if any(k > d["m"] and d["kind"] in MULTI for k, d in zip(e["nsig"], t["shape"])) else "single")
     if e["frame"] != t["frame"]:
         return "C05|frame|changed"
     if exp is None:
@@ -583,7 +629,8 @@ def run_traces(ctx):
             ctx.fail(key, "recorded signing session is not a behaviour of Signer.tla (event %d): coin=%s shape=%s event=%s; the specification allows %s" % (
                 j, t["coin"], t["shape"], t["ev"][j], exp), {"trace": t, "event": j, "spec": exp})
     # binding self-test: corrupt one logged field of accepted traces
-    good = [t for i, t in enumerate(traces) if i not in set(rej) and len(t["ev"]) >= 2 and any(t["ev"][-1]["signed"])]
+    good = [t for i, t in enumerate(traces) if i not in set(rej) and len(t["ev"]) >= 2 and any(t["ev"][-1]["signed"])
+                and t["ev"][-1]["mech"] not in ("edit", "kc_add")]
     if good:
         g = good[0]
         b1 = json.loads(json.dumps(g))
@@ -610,7 +657,7 @@ def replay(ctx, obj):
     ses = drv.Session(coin, shape)
     bits = drv.flag_bits(policy_names_for(coin))
     for a in acts:
-        p = {k: a.get(k, "none" if k == "ic" else None) for k in ("mech", "K", "I", "ht", "scr", "reg", "sec", "fresh", "ic")}
+        p = {k: a.get(k, "none" if k == "ic" else None) for k in ("mech", "K", "I", "ht", "scr", "reg", "sec", "fresh", "ic", "field", "pos")}
         try:
             ses.sign(p)
             exc = None
